@@ -11,9 +11,11 @@ CONSTANTS MODE,          \* "compose" | "arith" | "reduce" | ...
           PF, TF, PG, TG,\* alphabet names
           LAYOUTS, EMIT
 
-VARIABLES stage, f, g, h, op, aff, sched
+VARIABLES stage, f, g, h, op, aff, sched, hist
 
-vars == <<stage, f, g, h, op, aff, sched>>
+vars == <<stage, f, g, h, op, aff, sched, hist>>
+\* history mode: the script that led to the current tree is a history variable, hidden from the fingerprint
+View == <<stage, f, g, h, op, aff, sched>>
 None == [none |-> TRUE]
 
 FSet == TreesN(NF, PredSet(PF), TermSet(TF), K)
@@ -27,17 +29,17 @@ Ops == CASE MODE = "compose" -> {"compose"}
          [] MODE = "prunea" -> {"elim_add", "elim_sub"}
          [] OTHER -> {}
 
-Init == stage = "init" /\ f = None /\ g = None /\ h = None /\ op = "" /\ aff = None /\ sched = <<>>
+Init == stage = "init" /\ f = None /\ g = None /\ h = None /\ op = "" /\ aff = None /\ sched = <<>> /\ hist = None
 
 PickF == \E x \in FSet, lay \in LAYOUTS :
     /\ stage = "init"
     /\ ~(lay \in {"hole", "low"} /\ (x.t # "D" \/ ScriptOf(x, K, lay) = ScriptOf(x, K, "dfs")))
     /\ f' = [abs |-> x, lay |-> lay, t |-> BuildTree(x, K, lay)]
-    /\ stage' = "f" /\ UNCHANGED <<g, h, op, aff, sched>>
+    /\ stage' = "f" /\ UNCHANGED <<g, h, op, aff, sched, hist>>
 PickG == \E x \in GSet :
     /\ stage = "f" /\ MODE \in {"compose", "arith", "pruneg", "prunea"}
     /\ g' = [abs |-> x, lay |-> "dfs", t |-> BuildTree(x, K, "dfs")]
-    /\ stage' = "fg" /\ UNCHANGED <<f, h, op, aff, sched>>
+    /\ stage' = "fg" /\ UNCHANGED <<f, h, op, aff, sched, hist>>
 Apply == \E o \in Ops :
     /\ \/ (stage = "fg" /\ MODE \in {"compose", "arith"}) \/ (stage = "f" /\ MODE = "reduce")
        \/ (stage = "f" /\ MODE = "prune") \/ (stage = "fg" /\ MODE \in {"pruneg", "prunea"})
@@ -50,7 +52,7 @@ Apply == \E o \in Ops :
               [] o = "elim_compose_elim" -> Eliminate(Compose(Eliminate(f.t), g.t))
               [] o = "elim_add" -> Arith("add", Eliminate(f.t), g.t)
               [] o = "elim_sub" -> Arith("sub", Eliminate(f.t), g.t)
-    /\ stage' = "done" /\ UNCHANGED <<f, g, aff, sched>>
+    /\ stage' = "done" /\ UNCHANGED <<f, g, aff, sched, hist>>
 
 \* tree (op) affine: the operator is applied to every terminal (tree first); -tree
 UnaryOnTerminals(t, F(_)) == [t EXCEPT !.nodes = [i \in Occ(t) |-> IF t.nodes[i].leaf THEN SetAff(t.nodes[i], F(AffOf(t.nodes[i]))) ELSE t.nodes[i]]]
@@ -61,7 +63,7 @@ ApplyAff == \E o \in Ops, a \in TermSet(TG) :
     /\ op' = o /\ aff' = a
     /\ h' = IF o = "neg" THEN NegTree(f.t)
             ELSE UnaryOnTerminals(f.t, LAMBDA ta : OutAff(CoeffWise(SubSeq(o, 1, 3), Out(ta.m, ta.b, ta.q), Out(a.m, a.b, a.q))))
-    /\ stage' = "done" /\ UNCHANGED <<f, g, sched>>
+    /\ stage' = "done" /\ UNCHANGED <<f, g, sched, hist>>
 
 \* regions (C09): the tree itself is observed; a schedule "n" x |tree| with skip_subtree after the positions of S
 SchedOf(n, S) == LET RECURSIVE G(_) G(j) == IF j > n THEN <<>> ELSE <<"n">> \o (IF j \in S THEN <<"s">> ELSE <<>>) \o G(j + 1) IN G(1)
@@ -78,9 +80,43 @@ ApplyFault == \E plan \in SUBSET ((0..(IF stage = "f" /\ MODE = "fault" THEN LpC
     /\ stage = "f" /\ MODE = "fault"
     /\ Cardinality(plan) <= NG /\ Cardinality({pr[1] : pr \in plan}) = Cardinality(plan)
     /\ op' = "eliminate" /\ h' = EliminateF(f.t, plan) /\ sched' = SortedPlan(plan)
-    /\ stage' = "done" /\ UNCHANGED <<f, g, aff>>
+    /\ stage' = "done" /\ UNCHANGED <<f, g, aff, hist>>
 
-Next == PickF \/ PickG \/ Apply \/ ApplyAff \/ ApplyRegions \/ ApplyFault
+\* ------------------------------------------------------------------ histories (C04, C05): sequences of operations of bounded depth
+\* operands: trees over R^2 -> R^2 for composition, trees over the input space with R^2 outputs for + and -
+ReluFirst == Dec(P(<<1, 0>>, 0), <<Leaf(Aff(<<<<1, 0>>, <<0, 1>>>>, <<0, 0>>)), Leaf(Aff(<<<<0, 0>>, <<0, 1>>>>, <<0, 0>>))>>)
+ReluFirstPartial == Dec(P(<<1, 0>>, 0), <<Missing, Leaf(Aff(<<<<0, 0>>, <<0, 1>>>>, <<0, 0>>))>>)
+HistCompose == {ReluFirst, ReluFirstPartial, Leaf(Aff(<<<<0, 1>>, <<1, 0>>>>, <<1, -2>>))}
+HistArith == {Dec(P(<<1>>, 0), <<Leaf(Aff(<<<<1>>, <<-1>>>>, <<0, 0>>)), Leaf(Aff(<<<<0>>, <<1>>>>, <<1, 1>>))>>),
+              Dec(P(<<-1>>, -1), <<Leaf(Aff(<<<<2>>, <<0>>>>, <<0, 1>>)), Missing>>)}
+HistAff == {Aff(<<<<0, 1>>, <<1, 0>>>>, <<1, -2>>), Aff(<<<<1, 1>>, <<0, 2>>>>, <<0, 0>>)}
+NoAff == [m |-> <<>>, b |-> <<>>, q |-> 1]
+HStep(o, x, a) == [op |-> o, rhs |-> IF x = None THEN <<>> ELSE ScriptOf(x, K, "dfs"), aff |-> a]
+HistStart == \E x \in FSet :
+    /\ stage = "init" /\ MODE = "history"
+    /\ f' = [abs |-> x, lay |-> "dfs", t |-> BuildTree(x, K, "dfs")]
+    /\ h' = BuildTree(x, K, "dfs") /\ hist' = [init |-> x, steps |-> <<>>]
+    /\ stage' = "h0" /\ UNCHANGED <<g, op, aff, sched>>
+Depth == CASE stage = "h0" -> 0 [] stage = "h1" -> 1 [] stage = "h2" -> 2 [] stage = "h3" -> 3 [] OTHER -> 99
+StageOf(n) == CASE n = 1 -> "h1" [] n = 2 -> "h2" [] n = 3 -> "h3" [] OTHER -> "h4"
+HistDo(o, x, a, res) ==
+    /\ MODE = "history" /\ Depth < NG                                   \* NG = depth bound in this mode
+    /\ f' = [abs |-> f.abs, lay |-> "dfs", t |-> h]                        \* f.t = tree before the step
+    /\ g' = IF x = None THEN None ELSE [abs |-> x, lay |-> "dfs", t |-> BuildTree(x, K, "dfs")]
+    /\ h' = res /\ op' = o /\ aff' = IF a = NoAff THEN None ELSE a
+    /\ hist' = [hist EXCEPT !.steps = Append(hist.steps, HStep(o, x, a))]
+    /\ stage' = StageOf(Depth + 1) /\ UNCHANGED sched
+HistNext ==
+    \/ HistDo("eliminate", None, NoAff, Eliminate(h))
+    \/ HistDo("reduce", None, NoAff, Reduce(h))
+    \/ HistDo("neg", None, NoAff, NegTree(h))
+    \/ \E a \in HistAff : HistDo("apply_func", None, a, ApplyFunc(h, a))
+    \/ \E x \in HistCompose : HistDo("compose", x, NoAff, Compose(h, BuildTree(x, K, "dfs")))
+    \/ \E x \in HistCompose : HistDo("compose_prune", x, NoAff, ComposePruned(h, BuildTree(x, K, "dfs")))
+    \/ \E x \in HistArith : HistDo("add", x, NoAff, Arith("add", h, BuildTree(x, K, "dfs")))
+    \/ \E x \in HistArith : HistDo("sub", x, NoAff, Arith("sub", h, BuildTree(x, K, "dfs")))
+
+Next == PickF \/ PickG \/ Apply \/ ApplyAff \/ ApplyRegions \/ ApplyFault \/ HistStart \/ (stage \in {"h0", "h1", "h2", "h3"} /\ HistNext)
 Spec == Init /\ [][Next]_vars
 
 \* ------------------------------------------------------------------ properties at design level
@@ -140,6 +176,19 @@ LawReduce == (stage = "done" /\ op = "reduce") =>
 WellFormed(t) == NodeDimsOK(t) /\ DecisionRowsOK(t) /\ LeafIffNoChildren(t) /\ Cardinality(OutDims(t)) <= 1
 ResultWellFormed == stage = "done" => (WellFormed(f.t) => WellFormed(h))
 
+\* C04 / C05 over histories: every step keeps the tree well-formed, caches sound and has the meaning of its operation
+InHist == MODE = "history" /\ stage \in {"h1", "h2", "h3", "h4"}
+HistExpected ==
+    CASE op \in {"eliminate", "reduce"} -> PF0
+      [] op = "neg" -> {[cons |-> p.cons, out |-> NegOut(p.out)] : p \in PF0}
+      [] op = "apply_func" -> ComposePieces(PF0, {[cons |-> {}, out |-> Out(aff.m, aff.b, aff.q)]})
+      [] op \in {"compose", "compose_prune"} -> ComposePieces(PF0, PG0)
+      [] op \in {"add", "sub"} -> LiftPieces(op, PF0, PG0)
+LawHistory == InHist =>
+    /\ WellFormed(h)
+    /\ CacheSound(h)
+    /\ PwlEqUpToThin(PH0, HistExpected, D)
+
 Step(o) == [op |-> o, rhs |-> <<>>, aff |-> [m |-> <<>>, b |-> <<>>, q |-> 1]]
 StepG(o) == [op |-> o, rhs |-> ScriptOf(g'.abs, K, "dfs"), aff |-> [m |-> <<>>, b |-> <<>>, q |-> 1]]
 HistorySteps ==
@@ -148,9 +197,15 @@ HistorySteps ==
       [] op' = "elim_compose_elim" -> <<Step("eliminate"), StepG("compose"), Step("eliminate")>>
       [] op' = "elim_add" -> <<Step("eliminate"), StepG("add")>>
       [] op' = "elim_sub" -> <<Step("eliminate"), StepG("sub")>>
+EmitHist ==
+    (EMIT /\ MODE = "history" /\ stage' \in {"h1", "h2", "h3", "h4"}) =>
+        PrintT("SCRIPT " \o ToJson([fam |-> "afftree", k |-> K, q |-> 1, mode |-> "history", lhs |-> ScriptOf(hist'.init, K, "dfs"),
+                                     steps |-> hist'.steps, faults |-> <<>>, all |-> FALSE]))
 Emit ==
+    EmitHist /\
     (EMIT /\ stage' = "done") =>
-        IF MODE = "fault"
+        IF MODE = "history" THEN TRUE
+        ELSE IF MODE = "fault"
         THEN (sched' = <<>>) =>       \* one fault-sweep script per tree: the harness enumerates the plans over the real run's LP calls
              /\ PrintT("SCRIPT " \o ToJson([fam |-> "afftree", k |-> K, q |-> 1, mode |-> "history", lhs |-> ScriptOf(f'.abs, K, f'.lay),
                                           steps |-> <<Step("eliminate")>>, faults |-> <<>>, faultsweep |-> NG]))
